@@ -81,7 +81,7 @@ def spec_of(state):
     return {"nodes": {n: list(v) for n, v in sorted(nodes.items())}, "edges": sorted(map(list, edges))}
 
 
-def run(ctx, tag, U, vars_, pre, bbs, op, posts, split=(0, 0), conf_every=1, detail=None, normalize_ret=None, compare_ret=True, reachable=None):
+def run(ctx, tag, U, vars_, pre, bbs, op, posts, split=(0, 0), conf_every=1, detail=None, normalize_ret=None, compare_ret=True, reachable=None, conf_extra=None):
     """bbs: dict inst -> (ins, outs) (concrete registry);  op(c) -> value;  posts(preA, postA, outcome, names) -> [(name, formula, sig, what)]"""
     import circuitgraph as cg
 
@@ -119,8 +119,15 @@ def run(ctx, tag, U, vars_, pre, bbs, op, posts, split=(0, 0), conf_every=1, det
             rnames = list(U) + [n for n in after[0] if n not in U]
             failed = []
             for n2, f2, s2, w2 in posts(acc_real(before), acc_real(after), rout, rnames, real):
-                if z3.is_false(z3.simplify(f2)):
+                f2s = z3.simplify(f2)
+                if z3.is_false(f2s):
                     failed.append((n2, s2, w2))
+                elif not z3.is_true(f2s):
+                    # the formula still has free signal variables (all valuations): violated iff its negation is satisfiable
+                    q = z3.Solver()
+                    q.add(z3.Not(f2s))
+                    if q.check() == z3.sat:
+                        failed.append((n2, s2, w2))
             d = dict(detail or {}, pre_state=spec_of(before), post_state=spec_of(after), outcome=rout.key(), registry=sorted(bbs), symbolic_outcome=out.key())
             hit = [x for x in failed if x[0] == name]
             if hit and reachable is not None and not reachable(before):
@@ -143,6 +150,8 @@ def run(ctx, tag, U, vars_, pre, bbs, op, posts, split=(0, 0), conf_every=1, det
             if normalize_ret:
                 a, b = normalize_ret(a), normalize_ret(b)
             same = (a[:2] == b[:2]) and (not compare_ret or a[0] == "raise" or a[2] == b[2]) and sym_state == real_state
+            if same and conf_extra is not None:
+                same = conf_extra(out, rout, m)
             ctx.count("conformance_replays")
             if not same:
                 ctx.harness_error(f"E2 stand-in does not conform to real networkx in {tag}", dict(detail or {}, pre_state=spec_of(sg.real_state(sg.materialize(vars_, m, mkbbs()))), symbolic=[a, spec_of(sym_state)], real=[b, spec_of(real_state)]))
